@@ -25,8 +25,10 @@ def stateStr (s : St) : String :=
     | none => "?"
   s!"base={s.base} len={s.buf.length} cons=[" ++ ",".intercalate cs ++ "]"
 
-def cbOf : String → Option Cb
-  | "c" => some .continue_ | "s" => some .stop | "p" => some .panic | _ => none
+def cbOf (w : String) : Option Cb :=
+  match w with
+  | "c" => some .continue_ | "s" => some .stop | "p" => some .panic
+  | _ => if w.startsWith "P" then ((w.drop 1).toString.toNat?).map Cb.put else none
 
 def endStr : RangeEnd → String
   | .getErr e => "err:" ++ errStr e
@@ -118,12 +120,12 @@ def step (x : S) (w : List String) : Option (S × String × List String) :=
     let c ← c.toNat?
     let cbs ← cbs.mapM cbOf
     let (s', vis, e) := range false c (cbs ++ [.stop]) s []
-    fin { x with st := s' } s!"vis={fmtNats vis} end={endStr e}" ["range_" ++ endStr e]
+    fin { x with st := s' } s!"vis={fmtNats vis} end={endStr e}" (["range_" ++ endStr e] ++ (if cbs.any (fun c => match c with | .put _ => true | _ => false) then ["range_put_in_callback"] else []))
   | "brange" :: c :: cbs => do
     let c ← c.toNat?
     let cbs ← cbs.mapM cbOf
     let (s', vis, e) := bufferRange c (cbs ++ [.stop]) s
-    fin { x with st := s' } s!"vis={fmtNats vis} end={endStr e}" ["brange_" ++ endStr e]
+    fin { x with st := s' } s!"vis={fmtNats vis} end={endStr e}" (["brange_" ++ endStr e] ++ (if cbs.any (fun c => match c with | .put _ => true | _ => false) then ["brange_put_in_callback"] else []))
   | ["state"] => some (x, stateStr s, [])
   | _ => none
 
